@@ -760,12 +760,19 @@ def histogram2d(
         xbin = (xmax - xmin) / float(nx)
         ybin = (ymax - ymin) / float(ny)
 
-    xind = np.floor((x[w] - xmin) * (float(nx) / (xmax - xmin)))
-    yind = np.floor((y[w] - ymin) * (float(ny) / (ymax - ymin)))
+    # the bin index is floor((x - xmin)/binsize), as for histogram(); the
+    # bin size is the one returned in xbin/ybin and used for the bin edges
+    xind = np.floor((x[w] - xmin) / xbin)
+    yind = np.floor((y[w] - ymin) / ybin)
+
+    # data on an upper limit can have index nx (ny).  As in histogram() they
+    # are not counted; they must not wrap into the next row of the flat index
+    (wkeep,) = np.where((xind < nx) & (yind < ny))
+    w = w[wkeep]
 
     # ind=xind+nx*yind
     # fixed so that row,col is the indexing
-    ind = yind + ny * xind
+    ind = yind[wkeep] + ny * xind[wkeep]
 
     if weights is not None:
         more = True
